@@ -436,7 +436,8 @@ register("C13", streams=[Q("parent", apis=["find_matches"], src=None, share=2, u
                          Q("parent", apis=ALL_APIS, src=True, share=1, untraced=0.4, climb_in_has=0.2)],
          observables=["full_results"],
          extra=[families.MutateFamily("mset", 300, 15000, "set_match from a Match whose target path climbs above the source (outcome, returned location, object graph)"),
-                families.BuilderFamily("dag", 300, 15000, "parent steps written through the builders (path / pathd): renderings and selections")],
+                families.BuilderFamily("dag", 300, 15000, "parent steps written through the builders (path / pathd): renderings and selections"),
+                families.MutateFamily("handles", 500, 15000, "searches that climb (child, then parent) from a Match whose container was replaced through it")],
          rule="paths with parent steps in any position, interleaved with descents, filters and recursion, from a document or a Match; locations incl. the '<-name' trail compared")
 register("C17", streams=[Q("all", apis=["find_matches", "find", "get_match"], src=None)],
          observables=["results_exc", "leaf_events", "stamps", "tie:trace"], oracles=[oracles.untraced_oracle, oracles.long_scan_oracle, oracles.event_chain_oracle, oracles.deep_oracle],
@@ -451,7 +452,8 @@ register("C08", oracles=[oracles.append_many_oracle], extra=[families.MutateFami
          rule="histories of 1-10 set_/set_match calls (no cascade) on one evolving document; parent part of any step kind, last step key/index incl. negative, ==len, beyond, wrong kind, other step kinds, the root; values fresh or aliases of existing objects; the same expression objects reused across calls; non-trivial = the history changed the document; compared: outcome class, returned value identity, the whole reachable object graph under canonical object numbers after every call")
 register("C09", oracles=[oracles.append_many_oracle], extra=[families.MutateFamily("cascade", 1500, 60000, "outcome and object graph of cascading set_ / get(store_default) histories")],
          rule="histories of cascading set_/set_match and get(..., store_default=True) on key/index paths that exist up to a random level (wrong type at some level, append vs index 0 vs other indices), interleaved with pops that remove created levels; expression objects reused")
-register("C10", oracles=[oracles.deep_oracle], extra=[families.MutateFamily("pop", 1500, 60000, "outcome and object graph of pop / pop_match / set_ histories")],
+register("C10", oracles=[oracles.deep_oracle], extra=[families.MutateFamily("pop", 1500, 60000, "outcome and object graph of pop / pop_match / set_ histories"),
+                                                      families.MutateFamily("handles", 500, 15000, "pop with a Match as data source that was taken before earlier edits (h.mpop)")],
          rule="histories of pop (with/without default), pop_match (must_match on/off) and set_ on one evolving document; any parent part, any last step, negative indices, the root")
 register("C14", extra=[families.MutateFamily("handles", 1500, 60000, "outcome and object graph of Match.data assignment / del / pop histories")],
          rule="1-4 live Match handles (several on the same slot, on shifting list items, obtained through filters / recursion / wildcards) x sequences of m.data = v, del m.data, m.pop(default), m.data reads")
